@@ -389,13 +389,15 @@ PROPS = {
         "assumptions": ["as C14", "stored answers never name the zero hash and no cut xorb hashes to zero (only for the no-unresolved clause)"],
     },
     "C03": {
-        "modules": ["XetProps.C03"],
-        "theorems": [
+        "modules": ["XetProps.C03", "XetProps.C01Pointer"],
+        "theorems": ["Xet.Pointer.C03_pointer_injective", "Xet.Pointer.C03_pointer_injective_iff",
+                     
             "Xet.Dedup.C03_pointer_hash", "Xet.Dedup.C03_pointer_function", "Xet.Dedup.C03_independent", "Xet.Dedup.C03_bytes_function",
             "Xet.Dedup.C03_same_bytes_same_pointer", "Xet.Dedup.C03_salt", "Xet.Dedup.C03_salt_file", "Xet.Dedup.C03_salt_empty_file",
         ],
-        "suites": ["session", "deduper", "hashes", "session_conc"],
-        "level_text": "The pointer hash is file_node_hash(chunk (hash,len) list, salt) for ANY oracle answers; the pointer size is the number of bytes for "
+        "suites": ["session", "deduper", "hashes", "session_conc", "pointer"],
+        "level_text": "Pointer text: the rendering is injective, equal pointer texts <=> equal (hash, size) (C03_pointer_injective_iff); the parser is many-to-one on texts (upper-case hex, 0x / underscore sizes, layout), only the rendering needs to be injective. "
+                      "The pointer hash is file_node_hash(chunk (hash,len) list, salt) for ANY oracle answers; the pointer size is the number of bytes for "
                       "every legal history; composed with C04: both are functions of the bytes and the salt only, for every partition of the bytes into "
                       "add_data calls, every grouping into process_chunks calls, every oracle, limits and defrag procedure; different salts => collision "
                       "of the keyed primitive on distinct (key,msg) pairs (never injectivity). Real sessions: the model recomputes every pointer from the "
@@ -407,8 +409,9 @@ PROPS = {
         "assumptions": ["data-hash collision appears as a disjunct of C03_bytes_function", "concurrency beyond interleaved add_data calls on one thread is not exercised"],
     },
     "C01": {
-        "modules": ["XetProps.C01", "XetProps.C01EndToEnd"],
-        "theorems": ["Xet.E2E.C01_end_to_end", "Xet.E2E.C01_end_to_end_canonical", "Xet.E2E.C01_end_to_end_empty",
+        "modules": ["XetProps.C01", "XetProps.C01EndToEnd", "XetProps.C01Pointer"],
+        "theorems": ["Xet.Pointer.C01_pointer_render", "Xet.Pointer.C01_pointer_render_panics", "Xet.Pointer.C01_pointer_roundtrip", "Xet.Pointer.C01_pointer_sniff", "Xet.Pointer.C01_pointer_valid_sound", "Xet.Pointer.C01_pointer_accept_sound", "Xet.Pointer.C01_pointer_parse_fields", "Xet.Pointer.C01_pointer_reject", "Xet.Pointer.C01_pointer_reject_overflow",
+                     "Xet.E2E.C01_end_to_end", "Xet.E2E.C01_end_to_end_canonical", "Xet.E2E.C01_end_to_end_empty",
                      "Xet.E2E.C01_e2e_core", "Xet.E2E.C01_e2e_chunker_link", "Xet.E2E.C01_e2e_cleaner_calls",
                      "Xet.E2E.C01_e2e_cleaner_refines", "Xet.E2E.C01_e2e_fetch_bytes", "Xet.E2E.C01_e2e_local_range",
                      "Xet.E2E.C01_e2e_response_plan", "Xet.E2E.C01_e2e_response_exists", "Xet.E2E.C01_e2e_puts_provenance",
@@ -417,8 +420,9 @@ PROPS = {
                      "Xet.Dedup.C01_finalize", "Xet.Dedup.C01_merge_in", "Xet.Dedup.C01_agg_finalize",
                      "Xet.Dedup.C01_roundtrip", "Xet.Dedup.C01_range", "Xet.Dedup.C01_range_is_slice",
                      "Xet.Dedup.rangeBytes_eq", "Xet.Dedup.truthful_hash_to_data"],
-        "suites": ["session", "deduper", "session_conc"],
-        "level_text": "Invariant proved for every hash primitives, limits (incl. 0/1), EVERY defrag decision procedure, every store and every "
+        "suites": ["session", "deduper", "session_conc", "pointer"],
+        "level_text": "Pointer text step (C01Pointer): for every hash and every size <= i64::MAX the cleaner's rendering is byte for byte `# xet version 0\\nfilesize = <dec>\\nhash = '<64 hex>'\\n`, init_from_string of it is valid and equals the cleaner's value field for field, it is below POINTER_FILE_LIMIT and is_xet_pointer_file / init_from_path accept it (sizes >= 2^63 cannot be rendered: Display asserts and panics - proved and reproduced); for every text of the modelled TOML grammar a valid parse has version 0, the hash string and a size 0..i64::MAX, and acceptance by the download path implies exactly 64 hex digits. "
+                      "Invariant proved for every hash primitives, limits (incl. 0/1), EVERY defrag decision procedure, every store and every "
                       "data-truthful oracle, over every history of interleaved files and completions followed by finish: each file's segments resolve "
                       "(in the store plus the xorbs this session cut) to exactly the chunks fed; preserved by continue-merge, new segment, local "
                       "self-reference, rejection, cuts (patching exactly the internal refs), merge_in's shift and DataAggregator::finalize. Hence every "
@@ -442,7 +446,8 @@ PROPS = {
                 "and repeated blocks (cross-file, cross-session and self dedup), empty / sub-chunk / multi-xorb sizes, random add_data partitions, "
                 "sequential or interleaved cleaners, re-uploads; every file of the store downloaded whole + 3 ranges after each session; "
                 "distinct by hash of the session op; non-trivial = non-empty session",
-        "assumptions": ["oracle answers are data-truthful (C05 + no data-hash collision: truthful_hash_to_data is in collision-extraction form)",
+        "assumptions": ["pointer text: Rust str modelled as UTF-8 bytes; the toml crate is the pinned 0.5.11, modelled statement by statement for the grammar rendered pointers and their mutations use; outside that grammar (table headers, dotted keys, arrays, inline tables, multi-line strings, \\u escapes, date-times, exponent floats) the model answers none and only the header stage is compared; the round trip is for size <= 2^63-1",
+                        "oracle answers are data-truthful (C05 + no data-hash collision: truthful_hash_to_data is in collision-extraction form)",
                         "StoreConsistent / NoZeroName on the final store (C06 collision-freeness, extraction form)",
                         "every chunk has at least one byte (C04_bounds_all)",
                         "end-to-end: the reconstruction response is produced by the CAS server, outside xet-core; assumed shape ServerResponse (one term per record segment = (xorb, chunk range, unpacked bytes); a window of consecutive terms containing the requested range with the offset into the first; fetch ranges inside the xorb containing their terms)",
@@ -706,5 +711,5 @@ PROPS = {
     },
 }
 
-HOOK_COMMITS = ["9bb2102", "a056c58", "25c3aff", "24644df", "9cc9f64", "baf5f6a", "26ae716", "f518c42"]
+HOOK_COMMITS = ["9bb2102", "a056c58", "25c3aff", "24644df", "9cc9f64", "baf5f6a", "26ae716", "f518c42", "27a34b3"]
 NOT_YET = {}
